@@ -350,17 +350,19 @@ theorem neutral_markAccepted (s : Sys) : Neutral s s.markAccepted := by
 
 /-! ### the accept loop -/
 
+theorem neutral_acceptBytes (cfg : Cfg) (s : Sys) (i : Nat) (cl : Client) (c0 : Conn) :
+    Neutral s (s.acceptBytes cfg i cl c0) := by
+  unfold Sys.acceptBytes
+  split
+  · split
+    · exact neutral_putConn s i _
+    · exact Neutral.refl s
+  · exact Neutral.refl s
+
 theorem neutral_acceptData (cfg : Cfg) (s : Sys) (i : Nat) (cl : Client) (c0 : Conn) :
     Neutral s (s.acceptData cfg i cl c0) := by
   unfold Sys.acceptData
-  have h1 : Neutral s (match cl.req with
-      | some r => if cl.pre > 0 then s.putConn i (recv cfg s.now c0 r cl.pre) else s
-      | none => s) := by
-    split
-    · split
-      · exact neutral_putConn s i _
-      · exact Neutral.refl s
-    · exact Neutral.refl s
+  have h1 := neutral_acceptBytes cfg s i cl c0
   simp only
   split
   · exact h1.trans (neutral_onConn _ i _)
@@ -1402,16 +1404,9 @@ theorem accept_frame (cfg : Cfg) (s : Sys) (j i : Nat) (hwf : s.WF) (hji : j ≠
   · exact ⟨wf_release _ _ hpush.1, (release_conn_ne _ i j hji).trans hpush.2⟩
   · unfold Sys.acceptData
     simp only
-    have h1 : (match (s.client j).req with
-        | some r => if (s.client j).pre > 0 then
-            (s.pushConn j { rts := s.now }).putConn j (recv cfg (s.pushConn j { rts := s.now }).now { rts := s.now } r (s.client j).pre)
-          else s.pushConn j { rts := s.now }
-        | none => s.pushConn j { rts := s.now }).WF ∧
-        (match (s.client j).req with
-        | some r => if (s.client j).pre > 0 then
-            (s.pushConn j { rts := s.now }).putConn j (recv cfg (s.pushConn j { rts := s.now }).now { rts := s.now } r (s.client j).pre)
-          else s.pushConn j { rts := s.now }
-        | none => s.pushConn j { rts := s.now }).conn i = s.conn i := by
+    have h1 : ((s.pushConn j { rts := s.now }).acceptBytes cfg j (s.client j) { rts := s.now }).WF ∧
+        ((s.pushConn j { rts := s.now }).acceptBytes cfg j (s.client j) { rts := s.now }).conn i = s.conn i := by
+      unfold Sys.acceptBytes
       split
       · split
         · exact ⟨wf_putConn _ _ _ hpush.1, (putConn_conn_ne _ i j _ hji).trans hpush.2⟩
@@ -2061,16 +2056,9 @@ theorem allRest_accept (cfg : Cfg) (s : Sys) (j : Nat) (hw : s.WF) (hn : 0 < s.n
   · exact allRest_release _ j hpw hpr
   · unfold Sys.acceptData
     simp only
-    have h1 : (match (s.client j).req with
-        | some r => if (s.client j).pre > 0 then
-            (s.pushConn j { rts := s.now }).putConn j (recv cfg (s.pushConn j { rts := s.now }).now { rts := s.now } r (s.client j).pre)
-          else s.pushConn j { rts := s.now }
-        | none => s.pushConn j { rts := s.now }).WF ∧
-        (match (s.client j).req with
-        | some r => if (s.client j).pre > 0 then
-            (s.pushConn j { rts := s.now }).putConn j (recv cfg (s.pushConn j { rts := s.now }).now { rts := s.now } r (s.client j).pre)
-          else s.pushConn j { rts := s.now }
-        | none => s.pushConn j { rts := s.now }).AllRest := by
+    have h1 : ((s.pushConn j { rts := s.now }).acceptBytes cfg j (s.client j) { rts := s.now }).WF ∧
+        ((s.pushConn j { rts := s.now }).acceptBytes cfg j (s.client j) { rts := s.now }).AllRest := by
+      unfold Sys.acceptBytes
       split
       · split
         · refine ⟨wf_putConn _ _ _ hpw, allRest_putConn _ j _ _ hpw hpr hpc ?_⟩
@@ -2206,5 +2194,1147 @@ theorem good_init (cfg : Cfg) : (Sys.init cfg).Good := by
   refine ⟨⟨List.nodup_nil, List.nodup_nil, ?_⟩, by simp [Sys.init, base], fun _ => rfl, ?_⟩
   · intro j hj; exact absurd hj List.not_mem_nil
   · intro k c hk; simp [Sys.conn, Sys.init, lookupConn] at hk
+
+/-! ## descriptors and keys under the slot-neutral operations -/
+
+/-- descriptors in use that are not client connections -/
+def Sys.fdsBase (s : Sys) : Int := s.curFds - s.conns.length
+
+/-- what the slot-neutral operations also keep: descriptor accounting, and no new client is served -/
+structure Tame (s s' : Sys) : Prop where
+  fds : s'.fdsBase = s.fdsBase
+  keysSub : ∀ k, k ∈ keys s'.conns → k ∈ keys s.conns
+
+theorem Tame.refl (s : Sys) : Tame s s := ⟨rfl, fun _ h => h⟩
+theorem Tame.trans {a b c : Sys} (h1 : Tame a b) (h2 : Tame b c) : Tame a c :=
+  ⟨h2.fds.trans h1.fds, fun k h => h1.keysSub k (h2.keysSub k h)⟩
+
+theorem tame_modClient (s : Sys) (i : Nat) (f : Client → Client) : Tame s (s.modClient i f) := ⟨rfl, fun _ h => h⟩
+
+theorem tame_release (s : Sys) (i : Nat) : Tame s (s.release i) := by
+  unfold Sys.release
+  split
+  · exact Tame.refl s
+  · rename_i c h
+    have hl := eraseConn_length s.conns i c h
+    refine ⟨?_, fun k hk => (keys_eraseConn_sublist s.conns i).subset hk⟩
+    simp only [Sys.fdsBase]
+    omega
+
+theorem tame_putConn (s : Sys) (i : Nat) (r : CRes) : Tame s (s.putConn i r) := by
+  unfold Sys.putConn
+  split
+  · exact (tame_modClient s i _).trans ((tame_release _ i).trans (tame_modClient _ i _))
+  · split <;>
+      exact ⟨by simp [Sys.fdsBase, Sys.modClient, Sys.setClient, setConn_length],
+             fun k hk => by simpa [Sys.modClient, Sys.setClient, keys_setConn] using hk⟩
+
+theorem tame_onConn (s : Sys) (i : Nat) (f : Conn → CRes) : Tame s (s.onConn i f) := by
+  unfold Sys.onConn
+  split
+  · exact Tame.refl s
+  · exact tame_putConn s i _
+
+theorem tame_foldl {α : Type} (f : Sys → α → Sys) (hf : ∀ s x, Tame s (f s x)) (l : List α) (s : Sys) :
+    Tame s (l.foldl f s) := by
+  induction l generalizing s with
+  | nil => exact Tame.refl s
+  | cons x xs ih => exact (hf s x).trans (ih (f s x))
+
+theorem tame_sweep (s : Sys) (f : Conn → Option Conn) : Tame s (s.sweep f) := by
+  unfold Sys.sweep
+  apply tame_foldl
+  intro s p
+  split <;> exact tame_putConn s _ _
+
+theorem tame_markAccepted (s : Sys) : Tame s s.markAccepted := by
+  unfold Sys.markAccepted
+  apply tame_foldl
+  intro s p
+  exact tame_modClient s _ _
+
+theorem tame_resetBacklog (s : Sys) : Tame s s.resetBacklog := by
+  unfold Sys.resetBacklog
+  apply tame_foldl
+  intro s i
+  exact tame_modClient s i _
+
+/-! ## the accept loop settles -/
+
+theorem putConn_length (s : Sys) (i : Nat) (r : CRes) (c0 : Conn) (hc : s.conn i = some c0) :
+    (s.putConn i r).conns.length = (if r.1.isSome then s.conns.length else s.conns.length - 1) := by
+  unfold Sys.putConn
+  split
+  · rename_i hr
+    simp only [hr, Option.isSome_none, Bool.false_eq_true, if_false]
+    show ((s.modClient i _).release i).conns.length = _
+    unfold Sys.release
+    have hc' : lookupConn (s.modClient i fun cl => { cl with inbox := cl.inbox ++ r.2 }).conns i = some c0 := hc
+    rw [hc']
+    have := eraseConn_length s.conns i c0 hc
+    show (eraseConn s.conns i).length = s.conns.length - 1
+    omega
+  · rename_i c hr
+    simp only [hr, Option.isSome_some, if_true]
+    split <;> simp [Sys.modClient, Sys.setClient, setConn_length]
+
+/-- accepting never shrinks the connection table (a connection that dies on arrival gives back exactly
+    the slot it took) -/
+theorem accept_conns_ge (cfg : Cfg) (s : Sys) (j : Nat) (hw : s.WF) (hjn : s.conn j = none) (hjb : j ∉ s.backlog) :
+    s.conns.length ≤ (Sys.accept cfg s j).conns.length := by
+  have hpw : (s.pushConn j { rts := s.now }).WF := by
+    refine ⟨?_, hw.backlogNodup, ?_⟩
+    · show (keys ((j, _) :: s.conns)).Nodup
+      simp only [keys, List.map_cons, List.nodup_cons]
+      refine ⟨?_, hw.keysNodup⟩
+      have := (lookup_none_iff s.conns j).mp hjn
+      simpa [keys] using this
+    · intro k hk
+      show lookupConn ((j, _) :: s.conns) k = none
+      have hkj : j ≠ k := fun h => hjb (h ▸ hk)
+      simp only [lookupConn, hkj, if_false]
+      exact hw.disjoint k hk
+  have hpc : (s.pushConn j { rts := s.now }).conn j = some { rts := s.now } := by
+    show lookupConn ((j, _) :: s.conns) j = _
+    simp [lookupConn]
+  have hpl : (s.pushConn j { rts := s.now }).conns.length = s.conns.length + 1 := by
+    simp [Sys.pushConn]
+  unfold Sys.accept
+  simp only
+  split
+  · -- dead on arrival
+    have : ((s.pushConn j { rts := s.now }).release j).conns.length + 1 = (s.pushConn j { rts := s.now }).conns.length := by
+      unfold Sys.release
+      have hc' : lookupConn (s.pushConn j { rts := s.now }).conns j = some { rts := s.now } := hpc
+      rw [hc']
+      exact eraseConn_length _ j _ hc'
+    omega
+  · unfold Sys.acceptData
+    simp only
+    -- the bytes already queued
+    have h1 : ((s.pushConn j { rts := s.now }).acceptBytes cfg j (s.client j) { rts := s.now }).WF ∧
+        ((((s.pushConn j { rts := s.now }).acceptBytes cfg j (s.client j) { rts := s.now }).conn j = none ∧
+          ((s.pushConn j { rts := s.now }).acceptBytes cfg j (s.client j) { rts := s.now }).conns.length = s.conns.length) ∨
+         ((((s.pushConn j { rts := s.now }).acceptBytes cfg j (s.client j) { rts := s.now }).conn j).isSome ∧
+          ((s.pushConn j { rts := s.now }).acceptBytes cfg j (s.client j) { rts := s.now }).conns.length = s.conns.length + 1)) := by
+      unfold Sys.acceptBytes
+      split
+      · rename_i r hreq
+        split
+        · refine ⟨wf_putConn _ _ _ hpw, ?_⟩
+          have hl := putConn_length (s.pushConn j { rts := s.now }) j
+            (recv cfg (s.pushConn j { rts := s.now }).now { rts := s.now } r (s.client j).pre) _ hpc
+          have hs := putConn_conn_self (s.pushConn j { rts := s.now }) j
+            (recv cfg (s.pushConn j { rts := s.now }).now { rts := s.now } r (s.client j).pre) _ hpw hpc
+          rw [hs]
+          cases hr : (recv cfg (s.pushConn j { rts := s.now }).now { rts := s.now } r (s.client j).pre).1 with
+          | none => left; rw [hr] at hl; simp at hl; exact ⟨rfl, by omega⟩
+          | some c' => right; rw [hr] at hl; simp at hl; exact ⟨rfl, by omega⟩
+        · refine ⟨hpw, Or.inr ?_⟩; rw [hpc]; exact ⟨rfl, hpl⟩
+      · refine ⟨hpw, Or.inr ?_⟩; rw [hpc]; exact ⟨rfl, hpl⟩
+    generalize (s.pushConn j { rts := s.now }).acceptBytes cfg j (s.client j) { rts := s.now } = t at h1
+    obtain ⟨htw, hcase⟩ := h1
+    split
+    · -- the client's FIN was queued as well
+      unfold Sys.onConn
+      rcases hcase with ⟨hn, hl⟩ | ⟨hs, hl⟩
+      · rw [hn]; simp only; omega
+      · cases hc : t.conn j with
+        | none => rw [hc] at hs; cases hs
+        | some c1 =>
+          simp only
+          have := putConn_length t j (finConn false c1, []) c1 hc
+          rw [this]
+          split <;> omega
+    · rcases hcase with ⟨_, hl⟩ | ⟨_, hl⟩ <;> omega
+
+theorem tame_acceptBytes (cfg : Cfg) (s : Sys) (i : Nat) (cl : Client) (c0 : Conn) :
+    Tame s (s.acceptBytes cfg i cl c0) := by
+  unfold Sys.acceptBytes
+  split
+  · split
+    · exact tame_putConn s i _
+    · exact Tame.refl s
+  · exact Tame.refl s
+
+theorem accept_fdsBase (cfg : Cfg) (s : Sys) (j : Nat) : (Sys.accept cfg s j).fdsBase = s.fdsBase := by
+  have hp : (s.pushConn j { rts := s.now }).fdsBase = s.fdsBase := by
+    simp only [Sys.fdsBase, Sys.pushConn, List.length_cons]; omega
+  unfold Sys.accept
+  simp only
+  split
+  · rw [(tame_release _ j).fds, hp]
+  · unfold Sys.acceptData
+    simp only
+    split
+    · rw [((tame_acceptBytes cfg _ j _ _).trans (tame_onConn _ j _)).fds, hp]
+    · rw [(tame_acceptBytes cfg _ j _ _).fds, hp]
+
+/-- nobody waits in the listen queue without a reason: at rest a waiting client means that there is no
+    free slot or that the descriptors in use have not yet fallen below the low watermark -/
+def Sys.NoIdleWait (cfg : Cfg) (s : Sys) : Prop :=
+  s.backlog ≠ [] → s.lim = 0 ∨ cfg.lowat ≤ s.curFds
+
+/-- what the accept loop can only do: take clients from the queue, use slots, use descriptors -/
+structure Admits (s s' : Sys) : Prop where
+  wf : s'.WF
+  total : s'.total = s.total
+  fds : s'.fdsBase = s.fdsBase
+  conns : s.conns.length ≤ s'.conns.length
+  backlog : s'.backlog.length ≤ s.backlog.length
+  graceful : s'.graceful = s.graceful
+  exited : s'.exited = s.exited
+
+theorem Admits.refl (s : Sys) (h : s.WF) : Admits s s :=
+  ⟨h, rfl, rfl, Nat.le_refl _, Nat.le_refl _, rfl, rfl⟩
+
+theorem Admits.trans {a b c : Sys} (h1 : Admits a b) (h2 : Admits b c) : Admits a c :=
+  ⟨h2.wf, h2.total.trans h1.total, h2.fds.trans h1.fds, Nat.le_trans h1.conns h2.conns,
+   Nat.le_trans h2.backlog h1.backlog, h2.graceful.trans h1.graceful, h2.exited.trans h1.exited⟩
+
+theorem Admits.lim_le {s s' : Sys} (h : Admits s s') : s'.lim ≤ s.lim := by
+  have := h.total; have := h.conns; simp only [Sys.total] at *; omega
+
+theorem Admits.curFds_ge {s s' : Sys} (h : Admits s s') : s.curFds ≤ s'.curFds := by
+  have := h.fds; have := h.conns; simp only [Sys.fdsBase] at *; omega
+
+theorem Admits.noIdleWait {cfg : Cfg} {s s' : Sys} (h : Admits s s') (hq : s.NoIdleWait cfg) : s'.NoIdleWait cfg := by
+  intro hb
+  have hb0 : s.backlog ≠ [] := by
+    intro he
+    have := h.backlog
+    rw [he] at this
+    simp at this
+    exact hb this
+  rcases hq hb0 with h0 | h0
+  · left; have := h.lim_le; omega
+  · right; have := h.curFds_ge; omega
+
+theorem acceptMany_admits (cfg : Cfg) (k : Nat) (s : Sys) (hw : s.WF) (hk : k ≤ s.lim) :
+    Admits s (acceptMany cfg k s) := by
+  induction k generalizing s with
+  | zero => exact Admits.refl s hw
+  | succ k ih =>
+    unfold acceptMany
+    split
+    · exact Admits.refl s hw
+    · rename_i j rest hb
+      have hnd : (j :: rest).Nodup := hb ▸ hw.backlogNodup
+      have hj : j ∉ rest := (List.nodup_cons.mp hnd).1
+      have hwf1 : ({ s with backlog := rest } : Sys).WF :=
+        ⟨hw.keysNodup, (List.nodup_cons.mp hnd).2, fun k hk => hw.disjoint k (by rw [hb]; exact List.mem_cons_of_mem _ hk)⟩
+      have hjn : ({ s with backlog := rest } : Sys).conn j = none :=
+        hw.disjoint j (by rw [hb]; exact List.mem_cons_self)
+      have hwa := (accept_frame cfg { s with backlog := rest } j (j + 1) hwf1 (by omega) hjn hj).1
+      have h1 : Admits s (Sys.accept cfg { s with backlog := rest } j) := by
+        refine ⟨hwa, ?_, ?_, ?_, ?_, ?_, ?_⟩
+        · rw [accept_total cfg _ j (by simp; omega)]; rfl
+        · rw [accept_fdsBase]; rfl
+        · exact accept_conns_ge cfg { s with backlog := rest } j hwf1 hjn hj
+        · rw [accept_backlog, hb]; simp
+        · exact (accept_spec cfg _ _).graceful
+        · exact (accept_spec cfg _ _).exited
+      have hl := accept_lim_ge cfg { s with backlog := rest } j
+      exact h1.trans (ih _ hwa (by simp at hl; omega))
+
+theorem round_admits (cfg : Cfg) (s : Sys) (hw : s.WF) : Admits s (s.round cfg) := by
+  unfold Sys.round
+  simp only
+  have hwf1 : ({ s with disabled := loadCheck s.curFds cfg.lowat cfg.hiwat s.lim s.disabled } : Sys).WF :=
+    ⟨hw.keysNodup, hw.backlogNodup, hw.disjoint⟩
+  split
+  · have := acceptMany_admits cfg (acceptCount s.lim)
+      { s with disabled := loadCheck s.curFds cfg.lowat cfg.hiwat s.lim s.disabled } hwf1 (acceptCount_le s.lim)
+    exact ⟨this.wf, this.total, this.fds, this.conns, this.backlog, this.graceful, this.exited⟩
+  · exact ⟨hwf1, rfl, rfl, Nat.le_refl _, Nat.le_refl _, rfl, rfl⟩
+
+/-- while somebody waits although a slot and descriptors are free, every iteration lets at least one in -/
+theorem round_progress (cfg : Cfg) (s : Sys) (hq : ¬ s.NoIdleWait cfg) :
+    (s.round cfg).backlog.length < s.backlog.length := by
+  unfold Sys.NoIdleWait at hq
+  have hb : s.backlog ≠ [] := fun h => hq (fun h' => absurd h h')
+  have hl : s.lim ≠ 0 := fun h => hq (fun _ => Or.inl h)
+  have hf : s.curFds < cfg.lowat := by
+    apply Decidable.byContradiction
+    intro h
+    exact hq (fun _ => Or.inr (by omega))
+  have hh := lowat_le_hiwat cfg
+  have hlc : loadCheck s.curFds cfg.lowat cfg.hiwat s.lim s.disabled = 0 := by
+    unfold loadCheck
+    by_cases hd : s.disabled = 0
+    · have : ¬ (s.curFds > cfg.hiwat ∨ s.lim = 0) := by omega
+      simp [hd, this]
+    · simp [hd, hf, hl]
+  obtain ⟨k, hk⟩ : ∃ k, acceptCount s.lim = k + 1 :=
+    ⟨acceptCount s.lim - 1, by have := acceptCount_pos s.lim hl; omega⟩
+  unfold Sys.round
+  simp only [hlc, if_true]
+  rw [hk]
+  exact acceptMany_backlog_lt cfg k _ hb
+
+/-- the fuel of `admitLoop` is enough: the loop ends in a state where nobody waits without a reason -/
+theorem admitLoop_adequate (cfg : Cfg) (k : Nat) (s : Sys) (hw : s.WF)
+    (hk : s.NoIdleWait cfg ∨ s.backlog.length ≤ k) :
+    Admits s (admitLoop cfg k s) ∧ (admitLoop cfg k s).NoIdleWait cfg := by
+  induction k generalizing s with
+  | zero =>
+    refine ⟨Admits.refl s hw, ?_⟩
+    rcases hk with h | h
+    · exact h
+    · intro hb; exact absurd (List.length_eq_zero_iff.mp (Nat.le_zero.mp h)) hb
+  | succ k ih =>
+    unfold admitLoop
+    have hr := round_admits cfg s hw
+    have hnext : (s.round cfg).NoIdleWait cfg ∨ (s.round cfg).backlog.length ≤ k := by
+      by_cases hq : s.NoIdleWait cfg
+      · exact Or.inl (hr.noIdleWait hq)
+      · right
+        have := round_progress cfg s hq
+        rcases hk with h | h
+        · exact absurd h hq
+        · omega
+    have := ih (s.round cfg) hr.wf hnext
+    exact ⟨hr.trans this.1, this.2⟩
+
+/-! ## the invariants over whole scripts -/
+
+theorem act_fdsBase (cfg : Cfg) (s : Sys) (op : Op) : (s.act cfg op).fdsBase = s.fdsBase := by
+  cases op <;> simp only [Sys.act] <;>
+    repeat' (first
+      | exact (tame_onConn _ _ _).fds
+      | exact (tame_sweep _ _).fds
+      | exact ((tame_onConn _ _ _).trans (tame_modClient _ _ _)).fds
+      | split
+      | rfl)
+
+theorem acceptMany_graceful (cfg : Cfg) (k : Nat) (s : Sys) :
+    (acceptMany cfg k s).graceful = s.graceful ∧ (acceptMany cfg k s).exited = s.exited := by
+  induction k generalizing s with
+  | zero => exact ⟨rfl, rfl⟩
+  | succ k ih =>
+    unfold acceptMany
+    split
+    · exact ⟨rfl, rfl⟩
+    · rename_i j rest hb
+      have := ih (Sys.accept cfg { s with backlog := rest } j)
+      exact ⟨this.1.trans (accept_spec cfg _ _).graceful, this.2.trans (accept_spec cfg _ _).exited⟩
+
+theorem admitLoop_graceful (cfg : Cfg) (k : Nat) (s : Sys) :
+    (admitLoop cfg k s).graceful = s.graceful ∧ (admitLoop cfg k s).exited = s.exited := by
+  induction k generalizing s with
+  | zero => exact ⟨rfl, rfl⟩
+  | succ k ih =>
+    unfold admitLoop
+    have h := ih (s.round cfg)
+    have hr : (s.round cfg).graceful = s.graceful ∧ (s.round cfg).exited = s.exited := by
+      unfold Sys.round
+      simp only
+      split
+      · exact acceptMany_graceful cfg _ _
+      · exact ⟨rfl, rfl⟩
+    exact ⟨h.1.trans hr.1, h.2.trans hr.2⟩
+
+theorem gracefulPass_graceful (cfg : Cfg) (s : Sys) : (s.gracefulPass cfg).graceful = s.graceful := by
+  unfold Sys.gracefulPass
+  simp only
+  have h1 : (s.gracefulStart cfg).graceful = s.graceful := by
+    unfold Sys.gracefulStart
+    split
+    · rfl
+    · have := (neutral_resetBacklog s).graceful
+      simpa [Sys.closeListen] using this
+  unfold Sys.exitIfIdle
+  split
+  · exact (neutral_sweep _ _).graceful.trans h1
+  · exact (neutral_sweep _ _).graceful.trans h1
+
+theorem settle_graceful_flag (cfg : Cfg) (s : Sys) : (s.settle cfg).graceful = s.graceful := by
+  have hhalt : ∀ t : Sys, t.halt.graceful = t.graceful := by
+    intro t; unfold Sys.halt; split <;> rfl
+  unfold Sys.settle
+  split
+  · exact hhalt s
+  · rw [(neutral_markAccepted _).graceful, hhalt]
+    unfold Sys.loopToRest
+    split
+    · exact gracefulPass_graceful cfg s
+    · exact (admitLoop_graceful cfg _ s).1
+
+theorem markAccepted_same (s : Sys) : s.markAccepted.conns = s.conns ∧ s.markAccepted.backlog = s.backlog ∧
+    s.markAccepted.lim = s.lim ∧ s.markAccepted.curFds = s.curFds := by
+  have h1 := markAccepted_frame s
+  have h2 := (neutral_markAccepted s).total
+  have h3 := (tame_markAccepted s).fds
+  refine ⟨h1.1, h1.2, ?_, ?_⟩
+  · simp only [Sys.total, h1.1] at h2; omega
+  · simp only [Sys.fdsBase, h1.1] at h3; omega
+
+theorem act_graceful_true (cfg : Cfg) (s : Sys) (op : Op) (h : s.graceful = true) :
+    (s.act cfg op).graceful = true := by
+  cases op <;> simp only [Sys.act] <;> repeat' (first
+    | exact h
+    | rfl
+    | exact (neutral_onConn _ _ _).graceful.trans h
+    | exact (neutral_sweep _ _).graceful.trans h
+    | exact ((neutral_onConn _ _ _).trans (neutral_modClient _ _ _)).graceful.trans h
+    | split)
+
+/-- after every step outside graceful shutdown the loop rests in a state where nobody waits without a
+    reason, and the descriptor accounting is intact -/
+theorem step_noIdleWait (cfg : Cfg) (s : Sys) (op : Op) (hg : s.Good)
+    (hng : (s.step cfg op).graceful = false) (hne : (s.step cfg op).exited = false) :
+    (s.step cfg op).NoIdleWait cfg ∧ (s.step cfg op).fdsBase = s.fdsBase := by
+  obtain ⟨i, hib, hf⟩ := exists_fresh s.backlog op
+  have hact := act_conn cfg s op i hg.wf hib hf
+  have hfa := act_fdsBase cfg s op
+  unfold Sys.step at hng hne ⊢
+  generalize s.act cfg op = s1 at hact hfa hng hne ⊢
+  have hg1 : s1.graceful = false := by rw [← settle_graceful_flag cfg s1]; exact hng
+  have he1 : s1.exited = false := by
+    cases h : s1.exited with
+    | false => rfl
+    | true => rw [settle_exited cfg s1 h] at hne; cases hne
+  unfold Sys.settle
+  rw [if_neg (by simp [he1])]
+  have hl : s1.loopToRest cfg = admitLoop cfg (2 * s1.backlog.length + 3) s1 := by
+    unfold Sys.loopToRest; simp [hg1]
+  rw [hl]
+  have had := admitLoop_adequate cfg (2 * s1.backlog.length + 3) s1 hact.1 (Or.inr (by omega))
+  generalize admitLoop cfg (2 * s1.backlog.length + 3) s1 = s2 at had
+  have he2 : s2.exited = false := had.1.exited.trans he1
+  rw [halt_total_eq s2 he2]
+  have hm := markAccepted_same s2
+  constructor
+  · intro hb
+    rw [hm.2.1] at hb
+    rw [hm.2.2.1, hm.2.2.2]
+    exact had.2 hb
+  · simp only [Sys.fdsBase, hm.1, hm.2.2.2]
+    have := had.1.fds
+    simp only [Sys.fdsBase] at this hfa
+    omega
+
+theorem run_noIdleWait (cfg : Cfg) (s : Sys) (ops : List Op) (hg : s.Good)
+    (h0 : s.graceful = false → s.exited = false → s.NoIdleWait cfg ∧ s.fdsBase = cfg.cf)
+    (hng : (s.run cfg ops).graceful = false) (hne : (s.run cfg ops).exited = false) :
+    (s.run cfg ops).NoIdleWait cfg ∧ (s.run cfg ops).fdsBase = cfg.cf := by
+  induction ops generalizing s with
+  | nil => exact h0 hng hne
+  | cons op rest ih =>
+    rw [run_cons] at hng hne ⊢
+    refine ih (s.step cfg op) (good_step cfg s op hg) ?_ hng hne
+    intro hg1 he1
+    have hs := step_noIdleWait cfg s op hg hg1 he1
+    refine ⟨hs.1, ?_⟩
+    rw [hs.2]
+    -- the state before the step was neither stopping nor stopped either
+    have hgs : s.graceful = false := by
+      cases h : s.graceful with
+      | false => rfl
+      | true =>
+        have : (s.step cfg op).graceful = true := by
+          unfold Sys.step
+          rw [settle_graceful_flag]
+          exact act_graceful_true cfg s op h
+        rw [this] at hg1; cases hg1
+    have hes : s.exited = false := by
+      cases h : s.exited with
+      | false => rfl
+      | true => rw [step_exited cfg s op h] at he1; cases he1
+    exact (h0 hgs hes).2
+
+/-! ## graceful stop over whole scripts -/
+
+theorem act_expireTs (cfg : Cfg) (s : Sys) (op : Op) : (s.act cfg op).expireTs = s.expireTs := by
+  cases op <;> simp only [Sys.act] <;> repeat' (first
+    | rfl
+    | exact (neutral_onConn _ _ _).expireTs
+    | exact (neutral_sweep _ _).expireTs
+    | exact ((neutral_onConn _ _ _).trans (neutral_modClient _ _ _)).expireTs
+    | split)
+
+theorem act_keysSub (cfg : Cfg) (s : Sys) (op : Op) : ∀ k, k ∈ keys (s.act cfg op).conns → k ∈ keys s.conns := by
+  cases op <;> simp only [Sys.act] <;> repeat' (first
+    | exact fun _ h => h
+    | exact (tame_onConn _ _ _).keysSub
+    | exact (tame_sweep _ _).keysSub
+    | exact ((tame_onConn _ _ _).trans (tame_modClient _ _ _)).keysSub
+    | split)
+
+theorem settle_stopping_more (cfg : Cfg) (s : Sys) (h : Stopping s) :
+    (s.settle cfg).expireTs = s.expireTs ∧ ∀ k, k ∈ keys (s.settle cfg).conns → k ∈ keys s.conns := by
+  have hhalt : ∀ t : Sys, t.halt.expireTs = t.expireTs ∧ ∀ k, k ∈ keys t.halt.conns → k ∈ keys t.conns := by
+    intro t; unfold Sys.halt; split
+    · exact ⟨rfl, fun k hk => by simp [keys] at hk⟩
+    · exact ⟨rfl, fun _ hk => hk⟩
+  unfold Sys.settle
+  split
+  · exact hhalt s
+  · have hm := neutral_markAccepted (s.loopToRest cfg).halt
+    have hmk := (markAccepted_frame (s.loopToRest cfg).halt).1
+    have hh := hhalt (s.loopToRest cfg)
+    have hl : (s.loopToRest cfg).expireTs = s.expireTs ∧ ∀ k, k ∈ keys (s.loopToRest cfg).conns → k ∈ keys s.conns := by
+      unfold Sys.loopToRest
+      rw [if_pos h.graceful]
+      unfold Sys.gracefulPass
+      simp only [Sys.gracefulStart, h.disabled, if_true]
+      unfold Sys.exitIfIdle
+      split
+      · exact ⟨(neutral_sweep _ _).expireTs, (tame_sweep _ _).keysSub⟩
+      · exact ⟨(neutral_sweep _ _).expireTs, (tame_sweep _ _).keysSub⟩
+    refine ⟨hm.expireTs.trans (hh.1.trans hl.1), ?_⟩
+    intro k hk
+    rw [hmk] at hk
+    exact hl.2 k (hh.2 k hk)
+
+/-- while stopping, every step keeps the deadline and serves no client it did not serve before -/
+theorem step_stopping_more (cfg : Cfg) (s : Sys) (op : Op) (h : Stopping s) :
+    (s.step cfg op).expireTs = s.expireTs ∧ ∀ k, k ∈ keys (s.step cfg op).conns → k ∈ keys s.conns := by
+  have h1 := act_stopping cfg s op h
+  have h2 := settle_stopping_more cfg (s.act cfg op) h1.1
+  unfold Sys.step
+  exact ⟨h2.1.trans (act_expireTs cfg s op), fun k hk => act_keysSub cfg s op k (h2.2 k hk)⟩
+
+/-- the first tick that takes the clock past the deadline ends the main loop -/
+theorem step_tick_expired (cfg : Cfg) (s : Sys) (n : Nat) (h : Stopping s) (he : s.exited = false)
+    (hx : s.expireTs ≠ 0 ∧ s.expireTs < s.now + n) : (s.step cfg (.tick n)).exited = true := by
+  have hn := neutral_sweep { s with now := s.now + n } (tickConn cfg (s.now + n))
+  have hact : s.act cfg (.tick n) = ({ s with now := s.now + n } : Sys).sweep (tickConn cfg (s.now + n)) := by
+    simp [Sys.act, he]
+  unfold Sys.step
+  rw [hact]
+  generalize ({ s with now := s.now + n } : Sys).sweep (tickConn cfg (s.now + n)) = s1 at hn
+  have hs1 : Stopping s1 := ⟨hn.graceful.trans h.graceful, hn.disabled.trans h.disabled, hn.backlog.trans h.backlog⟩
+  have hex : s1.expired = true := by
+    have h1 : s1.expireTs = s.expireTs := hn.expireTs
+    have h2 : s1.now = s.now + n := hn.now
+    simp [Sys.expired, h1, h2, hx.1, hx.2]
+  have he1 : s1.exited = false := hn.exited.trans he
+  unfold Sys.settle
+  simp only [he1, Bool.false_eq_true, if_false, Sys.loopToRest, hs1.graceful, if_true]
+  rw [(neutral_markAccepted _).exited, halt_exited]
+  exact gracefulPass_expired cfg s1 hs1.disabled hex
+
+theorem op_dt_tick (op : Op) (n : Nat) (h : op.dt = n) (hn : n ≠ 0) : op = .tick n := by
+  cases op <;> simp [Op.dt] at h <;> first | (subst h; rfl) | exact absurd h.symm hn
+
+/-- once stopping with a deadline, the main loop has returned by the time the clock has passed it -/
+theorem stopping_run_exits (cfg : Cfg) (s : Sys) (post : List Op) (h : Stopping s) (hE : s.expireTs ≠ 0)
+    (hinv : s.exited = true ∨ s.now ≤ s.expireTs) (hd : s.expireTs < s.now + dur post) :
+    (s.run cfg post).exited = true := by
+  induction post generalizing s with
+  | nil =>
+    rcases hinv with he | hle
+    · exact he
+    · simp [dur] at hd; omega
+  | cons op rest ih =>
+    rw [run_cons]
+    by_cases he : s.exited = true
+    · exact run_exited cfg _ rest (step_exited cfg s op he)
+    · have he' : s.exited = false := by cases h' : s.exited <;> simp_all
+      have hnow := step_now cfg s op
+      by_cases hx : s.expireTs < s.now + op.dt
+      · have hdt : op.dt ≠ 0 := by
+          intro h0; rw [h0] at hx
+          rcases hinv with h1 | h1
+          · exact he h1
+          · simp at hx; omega
+        have hop := op_dt_tick op op.dt rfl hdt
+        rw [hop]
+        exact run_exited cfg _ rest (step_tick_expired cfg s op.dt h he' ⟨hE, hx⟩)
+      · have hs := step_stopping cfg s op h
+        have hm := step_stopping_more cfg s op h
+        refine ih (s.step cfg op) hs.1 (by rw [hm.1]; exact hE) (Or.inr (by rw [hm.1, hnow]; omega)) ?_
+        rw [hm.1, hnow]
+        simp only [dur, List.map_cons, List.sum_cons] at hd ⊢
+        omega
+
+theorem loadCheck_ne3 (c l h : Int) (lim d : Nat) (hd : d ≠ 3) : loadCheck c l h lim d ≠ 3 := by
+  unfold loadCheck
+  split
+  · split <;> omega
+  · split <;> omega
+
+theorem admitLoop_disabled_ne3 (cfg : Cfg) (k : Nat) (s : Sys) (hd : s.disabled ≠ 3) :
+    (admitLoop cfg k s).disabled ≠ 3 := by
+  induction k generalizing s with
+  | zero => exact hd
+  | succ k ih =>
+    unfold admitLoop
+    apply ih
+    unfold Sys.round
+    simp only
+    split
+    · rw [acceptMany_disabled]; exact loadCheck_ne3 _ _ _ _ _ hd
+    · exact loadCheck_ne3 _ _ _ _ _ hd
+
+theorem act_disabled (cfg : Cfg) (s : Sys) (op : Op) : (s.act cfg op).disabled = s.disabled := by
+  cases op <;> simp only [Sys.act] <;> repeat' (first
+    | rfl
+    | exact (neutral_onConn _ _ _).disabled
+    | exact (neutral_sweep _ _).disabled
+    | exact ((neutral_onConn _ _ _).trans (neutral_modClient _ _ _)).disabled
+    | split)
+
+/-- the listen sockets are closed only by graceful shutdown -/
+theorem step_listen_open (cfg : Cfg) (s : Sys) (op : Op) (hi : s.graceful = false → s.disabled ≠ 3)
+    (hg : (s.step cfg op).graceful = false) : (s.step cfg op).disabled ≠ 3 := by
+  have hg0 : s.graceful = false := by
+    cases h : s.graceful with
+    | false => rfl
+    | true =>
+      have : (s.step cfg op).graceful = true := by
+        unfold Sys.step; rw [settle_graceful_flag]; exact act_graceful_true cfg s op h
+      rw [this] at hg; cases hg
+  unfold Sys.step at hg ⊢
+  have hd1 : (s.act cfg op).disabled ≠ 3 := by rw [act_disabled]; exact hi hg0
+  generalize s.act cfg op = s1 at hg hd1 ⊢
+  have hg1 : s1.graceful = false := by rw [← settle_graceful_flag cfg s1]; exact hg
+  have hhalt : ∀ t : Sys, t.halt.disabled = t.disabled := by
+    intro t; unfold Sys.halt; split <;> rfl
+  unfold Sys.settle
+  split
+  · rw [hhalt]; exact hd1
+  · rw [(neutral_markAccepted _).disabled, hhalt]
+    unfold Sys.loopToRest
+    simp only [hg1, Bool.false_eq_true, if_false]
+    exact admitLoop_disabled_ne3 cfg _ s1 hd1
+
+theorem run_listen_open (cfg : Cfg) (s : Sys) (ops : List Op) (hi : s.graceful = false → s.disabled ≠ 3)
+    (hg : (s.run cfg ops).graceful = false) : (s.run cfg ops).disabled ≠ 3 := by
+  induction ops generalizing s with
+  | nil => exact hi hg
+  | cons op rest ih =>
+    rw [run_cons] at hg ⊢
+    exact ih (s.step cfg op) (fun h => step_listen_open cfg s op hi h) hg
+
+/-- while stopping and before the deadline, whatever the other clients, the clock (short of this
+    connection's own timeout) and the maintenance pass do, a request being read or a response being
+    written stays exactly as it is, keep-alive apart -/
+theorem graceful_inflight_step (cfg : Cfg) (s : Sys) (op : Op) (i : Nat) (c : Conn) (hg : s.Good)
+    (hs : Stopping s) (hc : s.conn i = some c) (hst : c.st = .write ∨ c.st = .readPost)
+    (hf : op.foreign i) (hsig : op ≠ .graceful) (hexp : s.expireTs = 0 ∨ s.now + op.dt ≤ s.expireTs)
+    (hdl : s.now + op.dt ≤ c.deadline cfg) :
+    (s.step cfg op).conn i = some { c with keepAlive := false } ∧ (s.step cfg op).exited = false := by
+  have hib : i ∉ s.backlog := by rw [hs.backlog]; exact List.not_mem_nil
+  have hx : s.exited = false := by
+    cases he : s.exited with
+    | false => rfl
+    | true => have := hg.halted he; simp [Sys.conn, this, lookupConn] at hc
+  have hact := act_conn cfg s op i hg.wf hib hf
+  have hst1 := act_stopping cfg s op hs
+  have hc1 : (s.act cfg op).conn i = some c := by
+    rw [hact.2.2]
+    cases op with
+    | tick n =>
+      simp only [hx, Bool.false_eq_true, if_false, hc, Option.bind]
+      exact tickConn_before cfg _ c (hg.rest i c hc) (by simpa [Op.dt] using hdl)
+    | _ => exact hc
+  have hnow1 := act_now cfg s op
+  have hexp1 := act_expireTs cfg s op
+  have hx1 : (s.act cfg op).exited = false := by
+    cases op with
+    | graceful => exact absurd rfl hsig
+    | tick n =>
+      simp only [Sys.act]
+      split
+      · exact hx
+      · exact (neutral_sweep _ _).exited.trans hx
+    | open_ j => simp only [Sys.act]; repeat' (first | exact hx | split)
+    | prepare j r => simp only [Sys.act]; repeat' (first | exact hx | split)
+    | send j n =>
+      simp only [Sys.act]
+      repeat' (first | exact hx | exact (neutral_onConn _ _ _).exited.trans hx | split)
+    | read j =>
+      simp only [Sys.act]
+      repeat' (first | exact hx | exact ((neutral_onConn _ _ _).trans (neutral_modClient _ _ _)).exited.trans hx | split)
+    | drain j =>
+      simp only [Sys.act]
+      repeat' (first | exact hx | exact ((neutral_onConn _ _ _).trans (neutral_modClient _ _ _)).exited.trans hx | split)
+    | fin j =>
+      simp only [Sys.act]
+      repeat' (first | exact hx | exact (neutral_onConn _ _ _).exited.trans hx | split)
+    | close j =>
+      simp only [Sys.act]
+      repeat' (first | exact hx | exact (neutral_onConn _ _ _).exited.trans hx | split)
+    | wake => exact hx
+  unfold Sys.step
+  generalize s.act cfg op = s1 at hact hst1 hc1 hnow1 hexp1 hx1
+  have hib1 : i ∉ s1.backlog := by rw [hst1.1.backlog]; exact List.not_mem_nil
+  have hgp := gracefulPass_conn cfg s1 i hact.1 hib1
+  have hstart : s1.gracefulStart cfg = s1 := by simp [Sys.gracefulStart, hst1.1.disabled]
+  have hnexp : s1.expired = false := by
+    simp only [Sys.expired, hexp1, hnow1]
+    rcases hexp with h0 | h0
+    · simp [h0]
+    · have : ¬ (s.expireTs < s.now + ↑op.dt) := by omega
+      simp [this]
+  rw [hstart, hnexp, hc1] at hgp
+  have hgc : gracefulConn false c = some { c with keepAlive := false } :=
+    gracefulConn_inflight c (by rcases hst with h | h; exact Or.inl h; exact Or.inr (Or.inl h))
+  simp only [Option.bind, hgc] at hgp
+  have hne : (s1.gracefulPass cfg).exited = false := by
+    unfold Sys.gracefulPass
+    simp only [hstart]
+    unfold Sys.exitIfIdle
+    have hsw := sweep_conn s1 (gracefulConn s1.expired) i hact.1
+    rw [hnexp, hc1] at hsw
+    simp only [Option.bind, hgc] at hsw
+    have hnonempty : (s1.sweep (gracefulConn false)).conns.isEmpty = false := by
+      cases hl : (s1.sweep (gracefulConn false)).conns with
+      | nil => simp [Sys.conn, hl, lookupConn] at hsw
+      | cons p ps => rfl
+    rw [hnexp, hnonempty]
+    simp only [Bool.false_eq_true, if_false]
+    exact (neutral_sweep _ _).exited.trans hx1
+  unfold Sys.settle
+  rw [if_neg (by simp [hx1])]
+  have hl : s1.loopToRest cfg = s1.gracefulPass cfg := by simp [Sys.loopToRest, hst1.1.graceful]
+  rw [hl, halt_total_eq _ hne]
+  constructor
+  · simp only [Sys.conn, (markAccepted_frame _).1]
+    exact hgp.2.2
+  · rw [(neutral_markAccepted _).exited]; exact hne
+
+/-! ## the limits do not depend on how a request arrives -/
+
+theorem respond_status (cfg : Cfg) (now : Int) (c : Conn) (st : Nat) (big comp ka : Bool) :
+    (respond cfg now c st big comp ka).2 = [st] := by
+  unfold respond
+  simp only
+  split <;> rfl
+
+theorem feed_none (cfg : Cfg) (r : Req) (segs : List (Int × Nat)) : (feed cfg r none segs).2 = [] := by
+  cases segs <;> rfl
+
+theorem feed_closed (cfg : Cfg) (r : Req) (c : Conn) (hs : c.st = .close) (segs : List (Int × Nat)) :
+    (feed cfg r (some c) segs).2 = [] := by
+  induction segs with
+  | nil => rfl
+  | cons x rest ih =>
+    obtain ⟨now, n⟩ := x
+    have : recv cfg now c r n = (some c, []) := by unfold recv; simp [hs]
+    simp only [feed, this, List.nil_append]
+    exact ih
+
+/-- after a refusal nothing more is answered -/
+theorem feed_after_refusal (cfg : Cfg) (r : Req) (now : Int) (c : Conn) (st : Nat) (comp : Bool)
+    (segs : List (Int × Nat)) :
+    (feed cfg r (respond cfg now c st false comp false).1 segs).2 = [] := by
+  cases h : (respond cfg now c st false comp false).1 with
+  | none => exact feed_none cfg r segs
+  | some c' => exact feed_closed cfg r c' ((respond_close cfg now c st comp).2 c' h) segs
+
+theorem segs_nil_of_sum (segs : List (Int × Nat)) (hp : ∀ x ∈ segs, 0 < x.2) (h : segSum segs = 0) : segs = [] := by
+  cases segs with
+  | nil => rfl
+  | cons x rest =>
+    have := hp x List.mem_cons_self
+    simp [segSum] at h
+    omega
+
+theorem chunk413_large (cfg : Cfg) (r : Req) (got : Nat) (h : chunk413 cfg r got = true) :
+    cfg.rs ≠ 0 ∧ chunkCount r * r.csz > cfg.rs * 1024 := by
+  unfold chunk413 at h
+  simp only [Bool.and_eq_true, ne_eq, decide_eq_true_eq, bne_iff_ne] at h
+  obtain ⟨⟨hr, hc⟩, hk, _⟩ := h
+  refine ⟨hr, ?_⟩
+  have hpos : 0 < r.csz := Nat.pos_of_ne_zero hc
+  have : cfg.rs * 1024 / r.csz < chunkCount r := by omega
+  exact (Nat.div_lt_iff_lt_mul hpos).mp this
+
+/-- request well-formedness assumed by the scenario language -/
+def Req.Valid (r : Req) : Prop :=
+  0 < r.H ∧ (r.kind = .post → 0 < r.B) ∧ (r.kind = .chunked → 0 < r.csz)
+
+theorem feed_body (cfg : Cfg) (r : Req) (hH : r.H ≤ cfg.fs) (hk : r.kind ≠ .get)
+    (hcl : r.kind = .post → ¬ (cfg.rs ≠ 0 ∧ r.B > cfg.rs * 1024)) (hv : r.Valid) :
+    ∀ (segs : List (Int × Nat)) (c : Conn), c.st = .readPost → c.req = r →
+      (∀ x ∈ segs, 0 < x.2) → c.bodyGot + segSum segs = bodyStreamLen r →
+      c.bodyGot < bodyStreamLen r → (r.kind = .chunked → chunk413 cfg r c.bodyGot = false) →
+      (feed cfg r (some c) segs).2 = [expectedStatus cfg r] := by
+  intro segs
+  induction segs with
+  | nil =>
+    intro c _ _ _ hsum hlt _
+    simp [segSum] at hsum; omega
+  | cons x rest ih =>
+    intro c hs hreq hp hsum hlt hnc
+    obtain ⟨now, n⟩ := x
+    have hn : 0 < n := hp (now, n) List.mem_cons_self
+    have hp' : ∀ y ∈ rest, 0 < y.2 := fun y hy => hp y (List.mem_cons_of_mem _ hy)
+    have hsum' : c.bodyGot + n + segSum rest = bodyStreamLen r := by
+      simp only [segSum, List.map_cons, List.sum_cons] at hsum ⊢; omega
+    have hexp431 : ¬ r.H > cfg.fs := by omega
+    simp only [feed]
+    have hrecv : recv cfg now c r n = bodyStep cfg now { c with rts := now } n := by
+      unfold recv; simp [hs]
+    rw [hrecv]
+    unfold bodyStep
+    simp only [hreq]
+    cases hkind : r.kind with
+    | get => exact absurd hkind hk
+    | post =>
+      simp only
+      have hbl : bodyStreamLen r = r.B := by simp [bodyStreamLen, hkind]
+      by_cases hdone : c.bodyGot + n ≥ r.B
+      · rw [if_pos hdone, respond_status]
+        have : rest = [] := segs_nil_of_sum rest hp' (by omega)
+        rw [this]
+        simp only [feed, List.append_nil]
+        simp [expectedStatus, hexp431, hkind, hcl hkind]
+      · rw [if_neg hdone]
+        simp only [List.nil_append]
+        refine ih _ rfl rfl hp' ?_ ?_ ?_
+        · show c.bodyGot + n + segSum rest = bodyStreamLen r; exact hsum'
+        · show c.bodyGot + n < bodyStreamLen r; omega
+        · intro h; rw [hkind] at h; cases h
+    | chunked =>
+      simp only
+      have hbl : bodyStreamLen r = chunkedTotal r := by simp [bodyStreamLen, hkind]
+      by_cases h413 : chunk413 cfg r (c.bodyGot + n) = true
+      · rw [if_pos h413, respond_status, feed_after_refusal]
+        have := chunk413_large cfg r _ h413
+        simp [expectedStatus, hexp431, hkind, this]
+      · rw [if_neg h413]
+        by_cases hdone : c.bodyGot + n ≥ chunkedTotal r
+        · rw [if_pos hdone, respond_status]
+          have : rest = [] := segs_nil_of_sum rest hp' (by omega)
+          rw [this]
+          simp only [feed, List.append_nil]
+          have hsmall : ¬ (cfg.rs ≠ 0 ∧ chunkCount r * r.csz > cfg.rs * 1024) := by
+            intro ⟨hr, hbig⟩
+            exact h413 (chunk413_of_large cfg r _ hr (Nat.pos_iff_ne_zero.mp (hv.2.2 hkind)) hbig hdone)
+          simp [expectedStatus, hexp431, hkind, hsmall]
+        · rw [if_neg hdone]
+          simp only [List.nil_append]
+          refine ih _ rfl rfl hp' ?_ ?_ ?_
+          · show c.bodyGot + n + segSum rest = bodyStreamLen r; exact hsum'
+          · show c.bodyGot + n < bodyStreamLen r; omega
+          · intro _; simpa using h413
+
+/-- The limits clause with an independent right-hand side: whatever the pieces `(second, bytes)` in
+    which a request reaches a connection that is waiting for it, exactly one answer is written and it
+    is the one `expectedStatus` demands of the request alone. -/
+theorem feed_expected (cfg : Cfg) (r : Req) (hv : r.Valid) :
+    ∀ (segs : List (Int × Nat)) (c : Conn), c.st = .read → c.hdrBuf < r.H → c.hdrBuf ≤ cfg.fs →
+      (∀ x ∈ segs, 0 < x.2) → c.hdrBuf + segSum segs = reqLen r →
+      (feed cfg r (some c) segs).2 = [expectedStatus cfg r] := by
+  intro segs
+  induction segs with
+  | nil =>
+    intro c _ hb _ _ hsum
+    simp [segSum, reqLen] at hsum; omega
+  | cons x rest ih =>
+    intro c hs hb hf hp hsum
+    obtain ⟨now, n⟩ := x
+    have hn : 0 < n := hp (now, n) List.mem_cons_self
+    have hp' : ∀ y ∈ rest, 0 < y.2 := fun y hy => hp y (List.mem_cons_of_mem _ hy)
+    have hsum' : c.hdrBuf + n + segSum rest = reqLen r := by
+      simp only [segSum, List.map_cons, List.sum_cons] at hsum ⊢; omega
+    simp only [feed]
+    unfold recv
+    simp only [hs]
+    by_cases hpart : c.hdrBuf + n < r.H
+    · rw [if_pos hpart]
+      by_cases hover : c.hdrBuf + n > cfg.fs
+      · rw [if_pos hover, respond_status, feed_after_refusal]
+        have : r.H > cfg.fs := by omega
+        simp [expectedStatus, this]
+      · rw [if_neg hover]
+        simp only [List.nil_append]
+        exact ih _ rfl hpart (by show c.hdrBuf + n ≤ cfg.fs; omega) hp' hsum'
+    · rw [if_neg hpart]
+      by_cases hbig : r.H > cfg.fs
+      · rw [if_pos hbig, respond_status, feed_after_refusal]
+        simp [expectedStatus, hbig]
+      · rw [if_neg hbig]
+        cases hkind : r.kind with
+        | get =>
+          simp only
+          rw [respond_status]
+          have hlen : reqLen r = r.H := by simp [reqLen, bodyStreamLen, hkind]
+          have : rest = [] := segs_nil_of_sum rest hp' (by omega)
+          rw [this]
+          simp only [feed, List.append_nil]
+          simp [expectedStatus, hbig, hkind]
+        | post =>
+          simp only
+          have hbl : bodyStreamLen r = r.B := by simp [bodyStreamLen, hkind]
+          by_cases hcl : cfg.rs ≠ 0 ∧ r.B > cfg.rs * 1024
+          · rw [if_pos hcl, respond_status, feed_after_refusal]
+            simp [expectedStatus, hbig, hkind, hcl]
+          · rw [if_neg hcl]
+            unfold bodyStep
+            simp only [hkind]
+            by_cases hdone : 0 + (c.hdrBuf + n - r.H) ≥ r.B
+            · rw [if_pos hdone, respond_status]
+              have : rest = [] := segs_nil_of_sum rest hp' (by simp only [reqLen, hbl] at hsum'; omega)
+              rw [this]
+              simp only [feed, List.append_nil]
+              simp [expectedStatus, hbig, hkind, hcl]
+            · rw [if_neg hdone]
+              simp only [List.nil_append]
+              refine feed_body cfg r (by omega) (by rw [hkind]; simp) (fun _ => hcl) hv rest _ rfl rfl hp' ?_ ?_ ?_
+              · show 0 + (c.hdrBuf + n - r.H) + segSum rest = bodyStreamLen r
+                simp only [reqLen] at hsum'; omega
+              · show 0 + (c.hdrBuf + n - r.H) < bodyStreamLen r; omega
+              · intro h; rw [hkind] at h; cases h
+        | chunked =>
+          simp only
+          have hbl : bodyStreamLen r = chunkedTotal r := by simp [bodyStreamLen, hkind]
+          unfold bodyStep
+          simp only [hkind]
+          by_cases h413 : chunk413 cfg r (0 + (c.hdrBuf + n - r.H)) = true
+          · rw [if_pos h413, respond_status, feed_after_refusal]
+            have := chunk413_large cfg r _ h413
+            simp [expectedStatus, hbig, hkind, this]
+          · rw [if_neg h413]
+            by_cases hdone : 0 + (c.hdrBuf + n - r.H) ≥ chunkedTotal r
+            · rw [if_pos hdone, respond_status]
+              have : rest = [] := segs_nil_of_sum rest hp' (by simp only [reqLen, hbl] at hsum'; omega)
+              rw [this]
+              simp only [feed, List.append_nil]
+              have hsmall : ¬ (cfg.rs ≠ 0 ∧ chunkCount r * r.csz > cfg.rs * 1024) := by
+                intro ⟨hr, hb2⟩
+                exact h413 (chunk413_of_large cfg r _ hr (Nat.pos_iff_ne_zero.mp (hv.2.2 hkind)) hb2 hdone)
+              simp [expectedStatus, hbig, hkind, hsmall]
+            · rw [if_neg hdone]
+              simp only [List.nil_append]
+              refine feed_body cfg r (by omega) (by rw [hkind]; simp)
+                (fun h => by rw [hkind] at h; cases h) hv rest _ rfl rfl hp' ?_ ?_ ?_
+              · show 0 + (c.hdrBuf + n - r.H) + segSum rest = bodyStreamLen r
+                simp only [reqLen] at hsum'; omega
+              · show 0 + (c.hdrBuf + n - r.H) < bodyStreamLen r; omega
+              · intro _; simpa using h413
+
+/-! ## what is buffered at rest -/
+
+theorem respond_not_readPost (cfg : Cfg) (now : Int) (c : Conn) (st : Nat) (big comp ka : Bool) (c' : Conn)
+    (h : (respond cfg now c st big comp ka).1 = some c') : c'.st ≠ .readPost := by
+  unfold respond at h
+  simp only at h
+  split at h
+  · cases h; simp
+  · unfold finishResponse at h
+    split at h
+    · cases h; simp
+    · unfold toClose at h
+      split at h
+      · cases h
+      · cases h; simp
+
+/-- a body that is still being read: less than the declared length (which passed the Content-Length
+    test), or — chunked — short of the size line that would be refused -/
+theorem bodyStep_rest_bounded (cfg : Cfg) (now : Int) (c : Conn) (add : Nat) (c' : Conn)
+    (h : (bodyStep cfg now c add).1 = some c') (hs : c'.st = .readPost) :
+    c'.req = c.req ∧
+    (c.req.kind = .post → c'.bodyGot < c.req.B) ∧
+    (c.req.kind = .chunked → cfg.rs ≠ 0 → c.req.csz ≠ 0 →
+      c'.bodyGot < (cfg.rs * 1024 / c.req.csz) * chunkUnit c.req.csz + hexLen c.req.csz + 7) := by
+  unfold bodyStep at h
+  simp only at h
+  split at h
+  · exact absurd hs (respond_not_readPost _ _ _ _ _ _ _ c' h)
+  · rename_i hk
+    split at h
+    · exact absurd hs (respond_not_readPost _ _ _ _ _ _ _ c' h)
+    · cases h
+      refine ⟨rfl, fun _ => (by simp only; omega), fun h' => (by rw [hk] at h'; cases h')⟩
+  · rename_i hk
+    split at h
+    · exact absurd hs (respond_not_readPost _ _ _ _ _ _ _ c' h)
+    · rename_i h413
+      split at h
+      · exact absurd hs (respond_not_readPost _ _ _ _ _ _ _ c' h)
+      · rename_i hnd
+        cases h
+        refine ⟨rfl, fun h' => (by rw [hk] at h'; cases h'), ?_⟩
+        intro _ hr hc
+        simp only
+        -- either the offending size line has not been received completely, or there is none
+        by_cases hkc : cfg.rs * 1024 / c.req.csz + 1 ≤ chunkCount c.req
+        · have : ¬ ((cfg.rs * 1024 / c.req.csz + 1 - 1) * chunkUnit c.req.csz + hexLen c.req.csz + 2 ≤ c.bodyGot + add) := by
+            intro hle
+            apply h413
+            unfold chunk413
+            have hle' : cfg.rs * 1024 / c.req.csz * chunkUnit c.req.csz + hexLen c.req.csz + 2 ≤ c.bodyGot + add := by
+              simpa using hle
+            simp [hr, hc, hkc, hle']
+          simp only [Nat.add_sub_cancel] at this
+          omega
+        · have hcnt : chunkCount c.req ≤ cfg.rs * 1024 / c.req.csz := by omega
+          have : chunkCount c.req * chunkUnit c.req.csz ≤ (cfg.rs * 1024 / c.req.csz) * chunkUnit c.req.csz :=
+            Nat.mul_le_mul_right _ hcnt
+          unfold chunkedTotal at hnd
+          omega
+
+/-! ## HTTP/2 -/
+
+theorem h2StreamStep_quiet (v : H2View) (now : Int) (s : H2Stream) (hne : s.st ≠ .error)
+    (hq : ¬ s.fires v now) : h2StreamStep v now (false, .write) s = (false, .write) := by
+  unfold h2StreamStep
+  unfold H2Stream.fires at hq
+  simp only [hne, if_false]
+  have h1 : ¬ (s.bodyPending = true ∧ now - v.rts > s.ri) := fun h => hq ⟨hne, Or.inl h⟩
+  have h2 : ¬ (s.st ≠ .readPost ∧ v.wts ≠ 0 ∧ now - v.wts > v.wi) := fun h => hq ⟨hne, Or.inr h⟩
+  rw [if_neg h1, if_neg h2]
+
+theorem h2_foldl_quiet (v : H2View) (now : Int) (l : List H2Stream) (hne : ∀ s ∈ l, s.st ≠ .error)
+    (hq : ∀ s ∈ l, ¬ s.fires v now) : l.foldl (h2StreamStep v now) (false, .write) = (false, .write) := by
+  induction l with
+  | nil => rfl
+  | cons x rest ih =>
+    simp only [List.foldl_cons]
+    rw [h2StreamStep_quiet v now x (hne x List.mem_cons_self) (hq x List.mem_cons_self)]
+    exact ih (fun s hs => hne s (List.mem_cons_of_mem _ hs)) (fun s hs => hq s (List.mem_cons_of_mem _ hs))
+
+/-- h2_check_timeout() acts exactly when the connection is idle too long or some stream is stalled -/
+theorem checkTimeoutH2_exact (v : H2View) (now : Int) (hs : v.st = .write)
+    (hne : ∀ s ∈ v.streams, s.st ≠ .error) :
+    (checkTimeoutH2 v now).1 = true ↔
+      (v.streams = [] ∧ now - v.rts > v.kaIdle) ∨ ∃ s ∈ v.streams, s.fires v now := by
+  constructor
+  · intro h
+    by_cases he : v.streams = []
+    · left
+      rw [checkTimeoutH2_idle v now hs he] at h
+      refine ⟨he, ?_⟩
+      split at h
+      · assumption
+      · cases h
+    · right
+      apply Classical.byContradiction
+      intro hno
+      have hq : ∀ s ∈ v.streams, ¬ s.fires v now := fun s hs' hf => hno ⟨s, hs', hf⟩
+      unfold checkTimeoutH2 at h
+      simp [hs, he, h2_foldl_quiet v now v.streams hne hq] at h
+  · intro h
+    rcases h with ⟨he, ht⟩ | hf
+    · rw [checkTimeoutH2_idle v now hs he, if_pos ht]
+    · rw [checkTimeoutH2_fires v now hs hf]
+
+/-- the invariant of h2_recv_data() over a stream's DATA frames -/
+def H2Body.Bounded (max F : Nat) (b : H2Body) : Prop :=
+  (b.status = 0 ∨ b.status = 413) ∧
+  (b.isOpen = true → b.bytesIn ≤ max + h2SinkAllowance ∧ (max < b.bytesIn → b.status = 413)) ∧
+  (b.isOpen = false → b.bytesIn ≤ max + h2SinkAllowance + F)
+
+theorem h2DataStep_bounded (max F : Nat) (hm : max ≠ 0) (b : H2Body) (alen : Nat) (es : Bool) (ha : alen ≤ F)
+    (h : b.Bounded max F) : (h2DataStep max b alen es).1.Bounded max F := by
+  obtain ⟨hst, hop, hcl⟩ := h
+  unfold h2DataStep
+  cases hopen : b.isOpen with
+  | false => simp only [Bool.not_false, if_true]; exact ⟨hst, by simp [hopen], fun _ => hcl hopen⟩
+  | true =>
+    have ho := hop hopen
+    simp only [Bool.not_true, Bool.false_eq_true, if_false]
+    by_cases hov : b.overLength alen = true
+    · rw [if_pos hov]
+      exact ⟨hst, by simp, fun _ => by simp only; omega⟩
+    · rw [if_neg hov]
+      cases es with
+      | true =>
+        simp only [if_true]
+        cases hc : b.cl with
+        | none => exact ⟨hst, by simp, fun _ => by simp only; omega⟩
+        | some n =>
+          simp only
+          split
+          · exact ⟨hst, by simp, fun _ => by simp only; omega⟩
+          · exact ⟨hst, by simp, fun _ => by simp only; omega⟩
+      | false =>
+        simp only [Bool.false_eq_true, if_false]
+        by_cases hle : max = 0 ∨ b.bytesIn + alen ≤ max
+        · rw [if_pos hle]
+          refine ⟨hst, fun _ => ?_, by simp [hopen]⟩
+          simp only
+          rcases hle with h0 | h0
+          · exact absurd h0 hm
+          · exact ⟨by omega, fun hgt => by omega⟩
+        · rw [if_neg hle]
+          by_cases hsink : b.bytesIn + alen - max > h2SinkAllowance ∨ b.status = 0
+          · rw [if_pos hsink]
+            by_cases hs0 : b.status = 0
+            · rw [if_pos hs0]
+              refine ⟨Or.inr rfl, fun _ => ?_, by simp [hopen]⟩
+              simp only
+              exact ⟨ho.1, fun _ => trivial⟩
+            · rw [if_neg hs0]
+              exact ⟨hst, fun _ => ho, by simp [hopen]⟩
+          · rw [if_neg hsink]
+            refine ⟨hst, fun _ => ?_, by simp [hopen]⟩
+            simp only
+            have hs413 : b.status = 413 := by
+              rcases hst with h0 | h0
+              · exact absurd (Or.inr h0) hsink
+              · exact h0
+            have : ¬ (b.bytesIn + alen - max > h2SinkAllowance) := fun hh => hsink (Or.inl hh)
+            exact ⟨by omega, fun _ => hs413⟩
+
+theorem h2DataRun_bounded (max F : Nat) (hm : max ≠ 0) (frames : List (Nat × Bool))
+    (hf : ∀ f ∈ frames, f.1 ≤ F) (b : H2Body) (h : b.Bounded max F) : (h2DataRun max b frames).Bounded max F := by
+  induction frames generalizing b with
+  | nil => exact h
+  | cons f rest ih =>
+    simp only [h2DataRun]
+    exact ih (fun g hg => hf g (List.mem_cons_of_mem _ hg)) _
+      (h2DataStep_bounded max F hm b f.1 f.2 (hf f List.mem_cons_self) h)
+
+theorem h2HeadScan_eq (fs : Nat) (fields : List (Nat × Nat)) (hlen i : Nat) (h0 : hlen ≤ fs) :
+    (h2HeadScan fs hlen i fields).1 =
+      if hlen + (fields.map fun f => f.1 + f.2 + 4).sum > fs then 431 else 0 := by
+  induction fields generalizing hlen i with
+  | nil => simp [h2HeadScan]; omega
+  | cons f rest ih =>
+    obtain ⟨k, v⟩ := f
+    unfold h2HeadScan
+    simp only [List.map_cons, List.sum_cons]
+    by_cases h : hlen + k + v + 4 > fs
+    · rw [if_pos h, if_pos (by omega)]
+    · rw [if_neg h, ih _ _ (by omega)]
+      have : hlen + k + v + 4 + (rest.map fun f => f.1 + f.2 + 4).sum = hlen + (k + v + 4 + (rest.map fun f => f.1 + f.2 + 4).sum) := by omega
+      rw [this]
+
+/-! ## the configured connection limit -/
+
+theorem effMaxConns_pos (mc maxFds : Nat) (h : minMaxFds ≤ maxFds) :
+    effMaxConns mc maxFds ≠ 0 ∧ 2 * effMaxConns mc maxFds ≤ maxFds := by
+  unfold effMaxConns
+  unfold minMaxFds at h
+  split
+  · omega
+  · split <;> omega
+
+theorem cfg_maxFds_ge (cfg : Cfg) : minMaxFds ≤ cfg.maxFds := by
+  unfold Cfg.maxFds; split <;> omega
+
+/-- while stopping, a loop at rest with an empty connection table has returned -/
+theorem step_stopping_idle_exits (cfg : Cfg) (s : Sys) (op : Op) (h : Stopping s)
+    (hc : (s.step cfg op).conns = []) : (s.step cfg op).exited = true := by
+  have h1 := act_stopping cfg s op h
+  unfold Sys.step at hc ⊢
+  generalize s.act cfg op = s1 at h1 hc ⊢
+  unfold Sys.settle at hc ⊢
+  by_cases he : s1.exited = true
+  · rw [if_pos he, halt_exited]; exact he
+  · rw [if_neg he] at hc ⊢
+    rw [(neutral_markAccepted _).exited, halt_exited]
+    rw [(markAccepted_frame _).1] at hc
+    have hl : s1.loopToRest cfg = s1.gracefulPass cfg := by simp [Sys.loopToRest, h1.1.graceful]
+    rw [hl] at hc ⊢
+    cases hx : (s1.gracefulPass cfg).exited with
+    | true => rfl
+    | false =>
+      rw [halt_total_eq _ hx] at hc
+      unfold Sys.gracefulPass at hc hx
+      simp only at hc hx
+      unfold Sys.exitIfIdle at hc hx
+      split at hx
+      · cases hx
+      · rename_i hne
+        rw [if_neg hne] at hc
+        rw [hc] at hne
+        simp at hne
 
 end LtVerif.Lifecycle
